@@ -145,6 +145,10 @@ def _add_command_options(case_no, tree, path, tokens):
         if sub.random() < 0.6:
             tok = "--" + o["long"] if o["mode"] == "flag" else \
                 "--%s=%s" % (o["long"], pc.value_for(sub, o["type"], o["nullable"], True))
+            if o["mode"] != "flag" and o.get("short") and o["type"] == "string" and sub.random() < 0.5:
+                # the short spelling with the value attached; values that contain switch letters (`-ohtml`, `-bnvq`)
+                # are values, not switches
+                tok = "-" + o["short"] + sub.choice(["html", "high", "nvq", "Vh", "x"])
             end = tokens.index("--") if "--" in tokens else len(tokens)
             start = len(path) if tokens[:len(path)] == path else end
             tokens.insert(sub.randint(min(start, end), end), tok)
@@ -223,6 +227,8 @@ class _Handler(object):
             vq = Question("Port?", "8080")
             vq.set_validator(int)
             rec["answers_ni"] = [cq.ask(io), vq.ask(io)]
+            # ... and a question asked through a SECTION of the I/O: the section shares the input and its setting
+            rec["answers_ni"].append(Question("Section?", "sdflt").ask(io.section()))
         # components that move the cursor on a decorated output (a section that is overwritten): with the no-ANSI
         # switch they must not emit a single escape byte either
         sec = io.section()
@@ -473,8 +479,8 @@ def oracle(case, obs):
             return "the handler saw quiet=%s verbosity=%s interactive=%s" % (r["quiet"], r["verbosity"], r["interactive"])
         if r["answer"] != ("dflt" if no_int else "typed"):
             return "question answered %r with interaction %s" % (r["answer"], "off" if no_int else "on")
-        if "answers_ni" in r and r["answers_ni"] != ["1", "8080"]:
-            return "no interaction: questions with a validator answered %r, their defaults are ['1', '8080']" % (r["answers_ni"],)
+        if "answers_ni" in r and r["answers_ni"] != ["1", "8080", "sdflt"]:
+            return "no interaction: questions (with a validator; asked on a section) answered %r, their defaults are ['1', '8080', 'sdflt']" % (r["answers_ni"],)
     plain_out = re.sub(r"\x1b\[[0-9;]*m", "", obs["out"])
     helpsw = has("-h") or has("--help")
     versw = has("--version") or has("-V")
